@@ -1,0 +1,1 @@
+//! Verification facade (cfg-gated): session family.  See `crate::verif`.
